@@ -78,6 +78,10 @@ pub const GOLDEN: &[&str] = &[
     // one tag in several spellings (shorthand, verbatim, through a declared handle) on equal texts
     "%TAG !y! tag:yaml.org,2002:\n---\n!!int 12: a\nx: y\n!<tag:yaml.org,2002:int> 12: b\n!y!int 12: c\n? !!str 12\n: d\n? !<tag:yaml.org,2002:str> 12\n: e\n",
     "- [!!int 7, !<tag:yaml.org,2002:int> 7, !<!int> 7, !int 7]\n- {!!bool true: 1, !<tag:yaml.org,2002:bool> true: 2, true: 3}\n",
+    // node properties given twice / in both orders, with aliases to every name; document-end markers that close nothing
+    "- &a !t x\n- !t &b y\n- &c !t &d z\n- [*a, *b, *c, *d]\n",
+    "k: &a !t &b\n  - 1\nl: *a\nm: *b\n",
+    "...\n...\na\n...\n...\n--- b\n...\n",
 ];
 
 // ------------------------------------------------------------------------------------------------
@@ -189,6 +193,8 @@ pub const SOUP_TOKENS: &[&str] = &[
     "\"\\uD800\"", "\"\\ud83d\\ude00\"", "\\uDFFF", "\\U00110000", "\\UFFFFFFFF", "\\U0010FFFF", "\\xFF", "\\uD7FF\\uE000", "\0", "a\0b", "---\t", "...\t", "---\t|\n", "| # c\n", "> # c\r", "|2-\n", "|+ \n",
     "0000000000000000000000000000000000000000000000000000000000000000042", "115792089237316195423570985008687907853269984665640564039457584007913129639936",
     "0.00000000000000000000000000000000000000000000000000000000000000001", "0x00000000000000000000000000000000000000000000000000000000000000ff",
+    // node properties in every order and number, an alias to each (added after round-5 change C02-m9), repeated / leading document-end markers (C06-m9)
+    "&a !t &b x", "!t &a !u x", "&a &b x", "&a !t ", "!t &b ", "&a !!str &b ", "\n- *a", ", *a", "\n- *b", "...\n... ", "\n...\n...", "... ",
 ];
 
 pub fn soup_strategy() -> impl Strategy<Value = Vec<&'static str>> {
@@ -204,6 +210,7 @@ pub const LINE_BODIES: &[&str] = &[
     "!!int 12: a", "!<tag:yaml.org,2002:int> 12: b", "? !!str 12", "!<tag:yaml.org,2002:str> 12: c", "!!int 12: d",
     "z: -0.0", "- -.0", "i: -inf", "- +NaN", "w: Infinity", "h: +0x10", "- 0o17", "f: 3e23", "m: -9223372036854775808", "k: \"\\uD800\"", "- \"\\ud83d\\ude00\"", "? # k", "?\t# c", "k: |\t# c", "- >\t# c",
     "k: 0000000000000000000000000000000000000000000000000000000000000000042", "- 115792089237316195423570985008687907853269984665640564039457584007913129639936",
+    "- &a !t &b x", "k: !t &a !u v", "- &a &b x", "&a !t &b", "j: *a", "- *b", "[ &a !!str &b x, *a ]", "... x", "... # c",
 ];
 
 pub fn lines_strategy() -> impl Strategy<Value = Vec<(u8, &'static str)>> {
